@@ -47,9 +47,31 @@ def eval_call(ex, node: ast.Call, st):
         if r is not None:
             return r
 
+    # ---- application of a callable parameter (assumed pure) ---------------------
+    if isinstance(f, ast.Name) and f.id in st.env and isinstance(st.env[f.id].ty, T.Fn):
+        fv = st.env[f.id]
+        args = []
+        for a, aty in zip(node.args, fv.ty.args):
+            args += T.coerce(ex.ev(a, st), aty).terms
+        return V(fv.ty.ret, [fv.fn(*args)])
+
     # ---- contract-directed resolution ----------------------------------------
     res = _lookup_call(ex, txt, f)
     if res is not None:
+        if res[0] == "check":
+            # ("check", [(label, spec-src)], inner-directive-or-None): assertion contract at a call site,
+            # evaluated in the caller's current environment before the call
+            for lab, src in res[1]:
+                g = ex.spec_bool(st, src, dict(st.env), old_state=ex.entry_state)
+                ex.oblige(st, "site", f"{txt}.{lab}@{node.lineno}", g, node, src)
+            if len(res) > 2 and res[2]:
+                return _apply_directive(ex, res[2], node, st, txt)
+            saved = ex.c.calls
+            ex.c.calls = {k: v for k, v in saved.items() if k != txt}
+            try:
+                return eval_call(ex, node, st)
+            finally:
+                ex.c.calls = saved
         return _apply_directive(ex, res, node, st, txt)
 
     # ---- builtins -------------------------------------------------------------
